@@ -25,6 +25,10 @@ def check(run):
     chain(run, p)
     dkeys(run, p)
     types(run, p)
+    from .common import nocache_rule
+    nocache_rule(run, 'C16-NOCACHE', p, ['tdda.serial.reader', 'tdda.serial.csvw', 'tdda.serial.pandasio', 'tdda.serial.base'],
+                 'metadata is read from the file each time it is needed: no memoising decorator and no class-level container used as a cache '
+                 'in the serial modules (a rewritten metadata file must take effect)')
     from .. import ief, triage
     ief.run_ief(run, 'C16', [p.fn('tdda.serial.reader.csv2pandas'), p.fn('tdda.serial.pandasio.gen_pandas_kwargs')], triage=triage.IEF)
     run.floor('C16-IEF', run.units['ief_functions_checked'], 20)
